@@ -72,6 +72,7 @@ class ResTracker(Tracker):
         self.exit_status = []    # for summaries: status of param resource at each return
         self.returns_owned = False
         self.overwrites = []
+        self.double_release = []
         self.canon = Canon(fn)
         # tracked locals
         self.ptr_locals = {}
@@ -103,6 +104,16 @@ class ResTracker(Tracker):
                     if t is not None:
                         cnt[t] = cnt.get(t, 0) + 1
         self.atoms = {t for t, c in cnt.items() if c >= 2}
+        # interval variables: never-reassigned int params/locals compared with constants at >= 2 branches
+        self.ivars = {}
+        if fn.cfg is not None:
+            icnt = {}
+            for b in fn.cfg.blocks.values():
+                if b.cond is not None and len(b.succs) == 2:
+                    r = self._ivar_cond(b.cond)
+                    if r is not None:
+                        icnt[r[0]] = icnt.get(r[0], 0) + 1
+            self.ivars = {d for d, c in icnt.items() if c >= 2}
         # liveness: atoms tested / variables referenced in blocks reachable from each block
         self.live_atoms = {}
         self.live_decls = {}
@@ -114,6 +125,9 @@ class ResTracker(Tracker):
                     t = self._atom_text(b.cond)
                     if t in self.atoms:
                         a.add(t)
+                    r = self._ivar_cond(b.cond)
+                    if r is not None and r[0] in self.ivars:
+                        a.add(("iv", r[0]))
                 ds = set()
                 for el in b.elems:
                     if el.k == "DeclRefExpr":
@@ -151,6 +165,33 @@ class ResTracker(Tracker):
             t = ("!" if neg else "") + self._spell(c)
         self._cond_txt[cond.strip().id] = t
         return t
+
+    def _ivar_cond(self, cond):
+        """(decl, op, const) if cond is `v OP const` over an int variable that is never reassigned"""
+        c = cond.strip()
+        neg = False
+        while c.k == "UnaryOperator" and c.op == "!":
+            neg = not neg
+            c = c.kids[0].strip()
+        if c.k != "BinaryOperator" or c.op not in ("==", "!=", "<", ">", "<=", ">="):
+            return None
+        a, b = c.kids[0].strip(), c.kids[1].strip()
+        op = c.op
+        if a.k != "DeclRefExpr" or b.cv is None:
+            if b.k == "DeclRefExpr" and a.cv is not None:
+                a, b = b, a
+                op = {"<": ">", ">": "<", "<=": ">=", ">=": "<="}.get(op, op)
+            else:
+                return None
+        if a.refkind not in ("param", "local") or a.ctype not in ("int", "long", "unsigned int", "size_t"):
+            return None
+        d = a.refdecl
+        ds = self.canon.defs.get(d, [])
+        if d in self.canon.addr_taken or len(ds) > 1 or any(k == "update" for k, _ in ds):
+            return None
+        if neg:
+            op = {"==": "!=", "!=": "==", "<": ">=", ">=": "<", ">": "<=", "<=": ">"}[op]
+        return (d, op, b.cv)
 
     def _spell(self, n):
         n = n.strip()
@@ -381,7 +422,7 @@ class ResTracker(Tracker):
         if not atoms:
             return st
         key = self._spell(lhs)
-        na = frozenset((t, v) for (t, v) in atoms if key not in t)
+        na = frozenset((t, v) for (t, v) in atoms if isinstance(t, tuple) or key not in t)
         if len(na) != len(atoms):
             return (vars_, res, ints, na)
         return st
@@ -451,13 +492,19 @@ class ResTracker(Tracker):
             elif n.get("callee_indirect"):
                 eff = "borrow"
             if eff == "release":
+                # releasing something that is already released on this path?
+                vd0, rd0 = dict(st[0]), dict(st[1])
+                for d0 in fl:
+                    r0 = vd0.get(d0)
+                    if r0 not in (None, "N") and rd0.get(r0) == "R" and nm in EXT_RELEASE:
+                        self.double_release.append((r0, self.ptr_locals.get(d0), n, ctx.trace()))
                 st = self._set_status(st, fl, "R")
             elif eff == "escape":
                 st = self._set_status(st, fl, "E")
         # calls may change memory: drop atoms that read memory (contain '.')
         vars_, res, ints, atoms = st
         if atoms and nm not in ("free", "strerror", "_vnacal_error", "_vnadata_error", "abs", "cabs", "fabs", "isnormal"):
-            na = frozenset((t, v) for (t, v) in atoms if "." not in t and "[" not in t)
+            na = frozenset((t, v) for (t, v) in atoms if isinstance(t, tuple) or ("." not in t and "[" not in t))
             st = (vars_, res, ints, na)
         return st
 
@@ -554,6 +601,37 @@ class ResTracker(Tracker):
             else:
                 atoms = _fs_set(atoms, at, truth)
                 st = (vars_, res, ints, atoms)
+        # interval facts on never-reassigned int variables
+        iv = self._ivar_cond(cond)
+        if iv is not None and iv[0] in self.ivars:
+            d, op, k = iv
+            if not truth:
+                op = {"==": "!=", "!=": "==", "<": ">=", ">=": "<", ">": "<=", "<=": ">"}[op]
+            key = ("iv", d)
+            cur = dict(atoms).get(key, (None, None))
+            lo, hi = cur
+            if op == "==":
+                nlo, nhi = k, k
+            elif op == "<":
+                nlo, nhi = None, k - 1
+            elif op == "<=":
+                nlo, nhi = None, k
+            elif op == ">":
+                nlo, nhi = k + 1, None
+            elif op == ">=":
+                nlo, nhi = k, None
+            else:   # != : only prunes a point interval
+                if lo is not None and lo == hi == k:
+                    return None
+                nlo, nhi = None, None
+            if nlo is not None:
+                lo = nlo if lo is None else max(lo, nlo)
+            if nhi is not None:
+                hi = nhi if hi is None else min(hi, nhi)
+            if lo is not None and hi is not None and lo > hi:
+                return None
+            atoms = _fs_set(atoms, key, (lo, hi))
+            st = (vars_, res, ints, atoms)
         # result of an acquire-by-address call tested directly
         cc = c
         eq = None
@@ -714,19 +792,56 @@ def compute_summaries(P, max_states=6000):
     summ = {}
     order = topo_functions(P)
     failed = []
-    for rnd in range(2):      # second round settles recursion
+    # functions that (transitively) call themselves need a second round
+    recursive = set()
+    for f in order:
+        seen = set()
+        st = [f]
+        while st:
+            x = st.pop()
+            for c in x.calls():
+                g = P.resolve_call(c, x)
+                if g is None or g.cfg is None:
+                    continue
+                if g is f:
+                    recursive.add(f.key())
+                    st = []
+                    break
+                if g.key() not in seen:
+                    seen.add(g.key())
+                    st.append(g)
+    for rnd in range(2):
         for f in order:
+            if rnd == 1 and f.key() not in recursive:
+                continue
             s = summ.get(f.key()) or Summary()
             try:
+                probe = ResTracker(P, f, summ)
                 if f.cret.endswith("*"):
-                    tr = ResTracker(P, f, summ)
-                    Engine(f, tr, max_states).run()
-                    s.returns_owned = s.returns_owned or tr.returns_owned
+                    Engine(f, probe, max_states).run()
+                    s.returns_owned = s.returns_owned or probe.returns_owned
+                # which pointer parameters have their value passed on, stored or returned at all?
+                moving = set()
+                for n in f.walk():
+                    if n.k == "CallExpr":
+                        for a in n.args():
+                            moving |= probe.flows(a)
+                            a_s = a.strip()
+                            if a_s.k == "UnaryOperator" and a_s.op == "&" and a_s.kids[0].strip().k == "DeclRefExpr":
+                                moving.add(a_s.kids[0].strip().refdecl)
+                    elif n.k == "BinaryOperator" and n.op == "=":
+                        moving |= probe.flows(n.kids[1])
+                    elif n.k == "VarDecl" and n.kids:
+                        moving |= probe.flows(n.kids[0])
+                    elif n.k == "ReturnStmt" and n.kids:
+                        moving |= probe.flows(n.kids[0])
                 for i, p in enumerate(f.params):
                     t = p.get("ct", p.get("t", ""))
                     if not t.endswith("*") or "(" in t:
                         continue
-                    # only parameters whose pointer value is passed on / freed / stored are interesting
+                    if p["decl"] not in moving:
+                        s.params[i] = "borrow"
+                        continue
                     tr = ResTracker(P, f, summ, param_as_resource=i)
                     Engine(f, tr, max_states).run()
                     ex = tr.exit_status
